@@ -12,6 +12,7 @@ import TwModel
 import TwSpec
 import TwProofs.Lemmas.EvalStep
 import TwProofs.Lemmas.LoadWhole
+import TwProofs.Lemmas.TextLayout
 
 namespace Tw.C06
 open Tw
@@ -180,6 +181,187 @@ theorem tilde_means_layouts (p : PS) (rest : Bytes) (h : p.cur.lit = 126 :: rest
     (aliasPath p "layouts").1 = b "layouts" ++ [47] ++ rest := by
   unfold aliasPath
   simp [h]
+
+/-! ### from the bytes of the two files -/
+
+/-- the text a page inserts under a name -/
+def lookupIns (ins : List Ins) (k : Bytes) : Option Bytes := (ins.find? (fun i => i.k == k)).map (·.v)
+
+/-- the render: the layout's text, and at each reserve the (escaped) text the page inserts under
+    that name — nothing when the page has no insert of that name -/
+def lrender (ins : List Ins) : List LItem → Bytes
+  | [] => []
+  | .text segs :: r => segsLit segs ++ lrender ins r
+  | .reserve _ k :: r => (match lookupIns ins k with | some v => literalValue v | none => []) ++ lrender ins r
+
+def lrenderS (ins : List Ins) : List LSpec → Bytes
+  | [] => []
+  | .text t :: r => t ++ lrenderS ins r
+  | .reserve k _ :: r => (match lookupIns ins k with | some v => literalValue v | none => []) ++ lrenderS ins r
+
+theorem lrenderS_lspec (ins : List Ins) : ∀ (items : List LItem) (base : Nat), lrenderS ins (lspec base items) = lrender ins items
+  | [], _ => rfl
+  | .text segs :: r, base => by simp [lspec, lrenderS, lrender, lrenderS_lspec ins r base]
+  | .reserve _ k :: r, base => by simp [lspec, lrenderS, lrender, lrenderS_lspec ins r (base + 1)]
+
+theorem lspec_length : ∀ (items : List LItem) (base : Nat), (lspec base items).length = items.length
+  | [], _ => rfl
+  | .text _ :: r, base => by simp [lspec, lspec_length r base]
+  | .reserve _ _ :: r, base => by simp [lspec, lspec_length r (base + 1)]
+
+/-- what the context binds to the reserve nodes -/
+def Bound (tbl : List (Nat × InsertDef)) (ins : List Ins) (specs : List LSpec) : Prop :=
+  ∀ k rid, LSpec.reserve k rid ∈ specs →
+    match lookupIns ins k with
+    | some v => ∃ d, lookupNat tbl rid = some d ∧ d.block = none ∧ ∃ tv, d.arg = some (.str tv v)
+    | none => lookupNat tbl rid = none
+
+theorem evalProg_lspec (c : Ctx) (env : Env) (ins : List Ins) : ∀ (specs : List LSpec) (ss : List Stmt) (fuel : Nat) (acc : Bytes),
+    ss.map lspecOf = specs.map some → Bound c.inserts ins specs → specs.length + 3 ≤ fuel →
+    evalProg fuel c env ss acc = .ok (acc ++ lrenderS ins specs, env) := by
+  intro specs
+  induction specs with
+  | nil =>
+    intro ss fuel acc hs _ hf
+    have : ss = [] := by simpa using hs
+    subst this
+    obtain ⟨f, rfl⟩ : ∃ f, fuel = f + 1 := ⟨fuel - 1, by omega⟩
+    rw [evalProg_nil]; simp [lrenderS]
+  | cons sp r ih =>
+    intro ss fuel acc hs hb hf
+    cases ss with
+    | nil => simp at hs
+    | cons st rest =>
+      simp only [List.map_cons, List.cons.injEq] at hs
+      obtain ⟨hs1, hsr⟩ := hs
+      obtain ⟨f, rfl⟩ : ∃ f, fuel = f + 3 := ⟨fuel - 3, by simp at hf; omega⟩
+      have hb' : Bound c.inserts ins r := fun k rid h => hb k rid (List.mem_cons_of_mem _ h)
+      rw [show f + 3 = (f + 2) + 1 from rfl, evalProg_cons]
+      cases st with
+      | html t =>
+        simp only [lspecOf, Option.some.injEq] at hs1
+        subst hs1
+        have := ih rest (f + 2) (acc ++ t.lit) hsr hb' (by simp at hf; omega)
+        rw [show f + 2 = (f + 1) + 1 from rfl, evalStmt_html, Res.bind_ok, show f + 1 + 1 = f + 2 from rfl, this]
+        simp [lrenderS, List.append_assoc]
+      | reserve t k rid =>
+        simp only [lspecOf, Option.some.injEq] at hs1
+        subst hs1
+        have hk := hb k rid (by simp)
+        cases hl : lookupIns ins k with
+        | none =>
+          rw [hl] at hk
+          simp only [] at hk
+          have := ih rest (f + 2) acc hsr hb' (by simp at hf; omega)
+          rw [show f + 2 = (f + 1) + 1 from rfl, reserve_without_insert_renders_nothing (f + 1) c env t k rid hk, Res.bind_ok]
+          simp only [List.append_nil]
+          rw [show f + 1 + 1 = f + 2 from rfl, this]
+          simp [lrenderS, hl]
+        | some v =>
+          rw [hl] at hk
+          simp only [] at hk
+          obtain ⟨d, hd, hblk, tv, harg⟩ := hk
+          have := ih rest (f + 2) (acc ++ literalValue v) hsr hb' (by simp at hf; omega)
+          rw [show f + 2 = (f + 1) + 1 from rfl, reserve_renders_value (f + 1) c env t k rid d (.str tv v) hd hblk harg]
+          simp only [evalExpr, Res.bind_ok, Val.toStr]
+          rw [show f + 1 + 1 = f + 2 from rfl, this]
+          simp [lrenderS, hl, List.append_assoc]
+      | _ => simp [lspecOf] at hs1
+
+theorem lookupIns_some {ins : List Ins} {k v : Bytes} (h : lookupIns ins k = some v) : ∃ i ∈ ins, i.k = k ∧ i.v = v := by
+  unfold lookupIns at h
+  simp only [Option.map_eq_some_iff] at h
+  obtain ⟨i, hi, hv⟩ := h
+  exact ⟨i, List.mem_of_find?_eq_some hi, by simpa using List.find?_some hi, hv⟩
+
+theorem lookupIns_none {ins : List Ins} {k : Bytes} (h : lookupIns ins k = none) : ∀ i ∈ ins, i.k ≠ k := by
+  unfold lookupIns at h
+  simp only [Option.map_eq_none_iff, List.find?_eq_none] at h
+  intro i hi
+  simpa using h i hi
+
+/-- **a page that uses a layout, from the bytes of the two files to the output**: for every page
+    file `@use("L")@insert("k1", "v1")…@insert("kn", "vn")` (either quote, distinct names, any
+    text in the literals that needs no escaping inside the quotes) and every layout file of text
+    runs and `@reserve("k")` directives (distinct names, every inserted name reserved), found in
+    the file tree where `@use` looks for them, the loader registers the page and rendering it —
+    with any data, under any name, with any registered functions — gives the layout's text with, at
+    each reserve, the escaped text the page inserts under that name (nothing where the page inserts
+    none).  Lexer (`tokenize_gitems`, `lex_dir1`, `lex_dir2`), parser (`parse_page`,
+    `parse_layout`), loader (`loaded_page_shape`, `bound_insert_of_parsed_layout`) and evaluator
+    (`evalProg_lspec`) composed. -/
+theorem layout_page_renders_from_the_sources (fs : Fs) (c : Cfg) (p : Bytes) (q : Byte) (L : Bytes) (ins : List Ins)
+    (items : List LItem) (hq : q = 34 ∨ q = 39) (hL : PlainStr q L) (hLne : L ≠ []) (hins : ∀ i ∈ ins, i.OK)
+    (hnd : (ins.map Ins.k).Nodup) (hitems : LItemsOK items) (hrnd : (resNames items).Nodup)
+    (hres : ∀ i ∈ ins, i.k ∈ resNames items)
+    (hP : readFile fs p = .ok (pageSrc q L ins))
+    (hLf : readFile fs (templatePath c (layoutName L)) = .ok (layoutSrc items))
+    (hsize : items.length + 5 ≤ evalFuel) :
+    ∃ pg, loadPage fs c p = .ok (some pg) ∧
+      ∀ (w : World) (t : Template) (name : Bytes) (data : List (Bytes × GoVal)) (env : Env),
+        mapGet t name = some pg → envFromMap data = .ok env → tplString w t name data = .ok (lrender ins items) := by
+  obtain ⟨prog, ut, hpp, huse, hpres, hpcomp, hpins, hpnone, hpkeys⟩ := parse_page q L ins hq hL hLne hins hnd
+  obtain ⟨lprog, hlp, hluse, hlstmts, hlres, _⟩ := parse_layout items hitems hrnd layoutBase
+  have hpf : parseFile fs p 0 = .ok prog := by unfold parseFile; rw [hP]; simp only [hpp]
+  have hlf : parseFile fs (templatePath c (layoutName L)) layoutBase = .ok lprog := by unfold parseFile; rw [hLf]; simp only [hlp]
+  have hfind : (sortByKey prog.inserts).find? (fun x => (mapGet lprog.reserves x.1).isNone) = none := by
+    rw [List.find?_eq_none]
+    intro x hx
+    have hx' : x ∈ prog.inserts := (sortByKey_perm prog.inserts).subset hx
+    obtain ⟨i, hi, hxi⟩ := hpkeys x hx'
+    obtain ⟨rid, hrid⟩ := names_lspec items layoutBase i.k (hres i hi)
+    rw [hxi, hlres i.k rid hrid]
+    simp
+  have hshape := loaded_page_shape fs c p prog lprog ut (layoutName L) [] hpf huse hlf hfind
+    (by rw [hpcomp]; rfl) (by rw [hpres]; rfl)
+  refine ⟨_, hshape, ?_⟩
+  intro w t name data env hpg hd
+  unfold tplString envOrFail
+  simp only [hd, hpg]
+  -- the context binds to each reserve node the page's insert of its name
+  have hbound : Bound (lprog.reserves.filterMap fun (n, rid) => (mapGet prog.inserts n).map fun d => (rid, d)) ins (lspec layoutBase items) := by
+    intro k rid hm
+    have hmem : (k, rid) ∈ lprog.reserves := mapGet_mem _ _ _ (hlres k rid hm)
+    have hbi := bound_insert_of_parsed_layout fs _ lprog prog.inserts hlf k rid hmem
+    rw [hbi]
+    cases hl : lookupIns ins k with
+    | none => exact hpnone k (lookupIns_none hl)
+    | some v =>
+      obtain ⟨i, hi, hik, hiv⟩ := lookupIns_some hl
+      obtain ⟨d, hd1, hd2, hd3, tv, hd4⟩ := hpins i hi
+      exact ⟨d, by rw [← hik]; exact hd1, hd3, tv, by rw [← hiv]; exact hd4⟩
+  obtain ⟨f, hf⟩ : ∃ f, evalFuel = f + 1 + 1 := ⟨evalFuel - 2, by omega⟩
+  have hL' := evalProg_lspec
+    ({ layout := some lprog.stmts, layoutHasUse := lprog.useName.isSome,
+       inserts := (lprog.reserves.filterMap (fun (n, rid) => (mapGet prog.inserts n).map (fun d => (rid, d)))),
+       comps := [], custom := w.custom } : Ctx) env ins (lspec layoutBase items) lprog.stmts f [] hlstmts hbound (by
+    have := lspec_length items layoutBase
+    omega)
+  rw [hf, page_renders_layout f _ env ut (layoutName L) lprog.stmts rfl (by simp [hluse]) _ env hL']
+  simp [resToOut, lrenderS_lspec]
+
+section example_layout
+private def exIns : List Ins := [⟨34, b "title", [32], 34, b "T & Co"⟩, ⟨39, b "body", [], 39, b "Hi"⟩]
+private def exItems : List LItem := [.text [.plain (b "<h1>")], .reserve 34 (b "title"), .text [.plain (b "</h1><p>")],
+  .reserve 39 (b "body"), .text [.plain (b "</p>")], .reserve 34 (b "none"), .text [.plain (b "!")]]
+private def exFs : Fs :=
+  [ (b "templates", .dir), (b "templates/layouts", .dir),
+    (b "templates/layouts/main.tw.html", .file (b "<h1>@reserve(\"title\")</h1><p>@reserve('body')</p>@reserve(\"none\")!")),
+    (b "templates/home.tw.html", .file (b "@use(\"~main\")@insert(\"title\", \"T & Co\")@insert('body','Hi')")) ]
+
+example : pageSrc 34 (b "~main") exIns = b "@use(\"~main\")@insert(\"title\", \"T & Co\")@insert('body','Hi')" := by decide
+example : layoutSrc exItems = b "<h1>@reserve(\"title\")</h1><p>@reserve('body')</p>@reserve(\"none\")!" := by decide
+
+/-- the hypotheses of the theorem hold for a concrete tree; the page renders with the ampersand escaped -/
+example : ∃ pg, loadPage exFs defaultCfg (b "templates/home.tw.html") = .ok (some pg) ∧
+    ∀ (w : World) (t : Template) (name : Bytes) (data : List (Bytes × GoVal)) (env : Env),
+      mapGet t name = some pg → envFromMap data = .ok env → tplString w t name data = .ok (b "<h1>T &amp; Co</h1><p>Hi</p>!") := by
+  have h := layout_page_renders_from_the_sources exFs defaultCfg (b "templates/home.tw.html") 34 (b "~main") exIns exItems
+    (Or.inl rfl) (by decide) (by decide) (by decide) (by decide) (by decide) (by decide) (by decide) (by rfl) (by rfl) (by decide)
+  have h2 : lrender exIns exItems = b "<h1>T &amp; Co</h1><p>Hi</p>!" := by decide
+  rw [h2] at h
+  exact h
+end example_layout
 
 /-! ### an instance through the whole pipeline: loader + evaluator on an in-memory file tree -/
 
